@@ -9,7 +9,7 @@ namespace LinVerif.Pipeline
 mutual
 /-- weight of `exec s`: more than everything its completion handler pushes -/
 def Stage.weight : Stage → Nat
-  | .mk _ _ cs => 5 + weightL cs
+  | .mk _ _ _ cs => 5 + weightL cs
 def weightL : List Stage → Nat
   | [] => 0
   | c :: cs => c.weight + 3 + weightL cs
@@ -43,7 +43,10 @@ theorem stepInstr_weight (cfg : Cfg) (sh : Shared) (pooled : Bool) (i : Instr) (
   | exec st =>
     have h1 := csum_weight_handler st
     have h2 := Stage.weight_eq st
-    simp only [stepInstr]; (repeat' split) <;> simp [Instr.weight] <;> omega
+    simp only [stepInstr, panicEff]; (repeat' split) <;> simp [Instr.weight] <;> omega
+  | launch st =>
+    have h2 := Stage.weight_eq st
+    simp only [stepInstr, panicEff]; (repeat' split) <;> simp [Instr.weight] <;> omega
   | _ => simp only [stepInstr] <;> (repeat' split) <;> simp [Instr.weight] <;> omega
 
 /-- the measure of a state -/
